@@ -393,8 +393,8 @@ static void case_reject(Rng& rng, uint64_t index)
 
 static void setup()
 {
-	add_generator("determinants", ctx().count(21000, 2100000), case_determinant);
-	add_generator("inverses", ctx().count(42000, 4200000), case_inverse);
+	add_generator("determinants", ctx().count(21000, 700000), case_determinant);
+	add_generator("inverses", ctx().count(42000, 1400000), case_inverse);
 	add_generator("rejected", ctx().count(420, 8400), case_reject);
 }
 VERIF_MAIN("C05", setup)
